@@ -68,4 +68,14 @@ def sourceIndex (f : Family) (src : String) : Option (String × Nat) :=
   | some [mp, slot] => ((slotMapOf (f.key ++ "." ++ mp)).lookup slot).map fun i => (mp, i)
   | _ => none
 
+/-- the `Py_BuildValue` call behind a one-shot record / positional native tuple: (format units, C expressions) -/
+def nativeArgsOf (key ident : String) : Option (String × List String) := Gen.C20.nativeArgs.lookup (key, ident)
+/-- length of the tuple the emulator's stub native returns for it -/
+def stubLenOf (key ident : String) : Option Nat := Gen.C20.stubRecordLens.lookup (key, ident)
+
+/-- (documented function | Process.<method>, namedtuple type, ordered?, documented fields) -/
+def docFieldsOf (p : Platform) : List (String × String × Bool × List String) := (Gen.C20.docFields.lookup p.key).getD []
+def actualFieldsOf (p : Platform) (nt : String) : Option (List String) :=
+  ((Gen.C20.actualFields.lookup p.key).getD []).lookup nt
+
 end Psutil.C20
